@@ -14,7 +14,7 @@ import math
 import operator
 from copy import copy
 from collections.abc import Iterator
-from decimal import Decimal, DivisionByZero
+from decimal import Decimal, DivisionByZero, InvalidOperation
 from typing import cast, NoReturn
 
 import elementpath.aliases as ta
@@ -655,17 +655,18 @@ def evaluate__idiv_operator(self: XPathToken, context: ta.ContextType = None) ->
         raise self.error('XPTY0004', err) from None
 
     try:
-        result = op1 // op2
-    except (ZeroDivisionError, DivisionByZero):
+        if isinstance(op1, float) or isinstance(op2, float):
+            return int(op1 / op2)  # ($a div $b) cast as xs:integer
+        elif isinstance(op1, Decimal) or isinstance(op2, Decimal):
+            return int(op1 // op2)  # the floor division of decimals truncates
+        result = abs(op1) // abs(op2)
+        return int(result if (op1 < 0) == (op2 < 0) else -result)
+    except (ZeroDivisionError, DivisionByZero, InvalidOperation):
         if isinstance(context, XPathSchemaContext):
             return 1
         raise self.error('FOAR0001') from None
-    else:
-        if result >= 0 or isinstance(op1, Decimal) or \
-                isinstance(op2, Decimal) or abs(op1) == abs(op2):
-            return int(result)
-        else:
-            return int(result) + 1
+    except OverflowError as err:
+        raise self.error('FOAR0002', err) from None
 
 
 # Resolve the intrinsic ambiguity of some infix operators
